@@ -2,7 +2,8 @@
 # tools/fuzz.sh build                      -> builds the libFuzzer targets (stable toolchain, sancov flags)
 # tools/fuzz.sh run <target> <seconds> [props]  -> runs a campaign; exit 1 + VIOLATION line if a target aborts on a property failure
 set -u
-cd /verif/harness || exit 2
+ROOT="${VERIF_ROOT:-/verif}"
+cd "$ROOT/harness" || exit 2
 export CARGO_NET_OFFLINE=true
 FLAGS="--cfg datadog_dd_native_iast_rewriter_js_verif --cfg fuzzing -Cpasses=sancov-module -Cllvm-args=-sanitizer-coverage-level=4 -Cllvm-args=-sanitizer-coverage-inline-8bit-counters -Cllvm-args=-sanitizer-coverage-pc-table -Cllvm-args=-sanitizer-coverage-trace-compares"
 build() {
@@ -14,16 +15,16 @@ case "${1:-}" in
     target="$2"; secs="$3"; props="${4:-}"
     build >/dev/null || { echo "INCONCLUSIVE: fuzz build failed"; exit 2; }
     [ -x target-fuzz/x86_64-unknown-linux-gnu/release/$target ] || { echo "INCONCLUSIVE: fuzz build failed"; exit 2; }
-    work="/verif/fuzz-work/$target${props:+-$props}"; mkdir -p "$work/corpus" "$work/artifacts"
+    work="$ROOT/fuzz-work/$target${props:+-$props}"; mkdir -p "$work/corpus" "$work/artifacts"
     # seed corpus: a few tapes / texts so that libFuzzer does not start from length 0
     if [ -z "$(ls -A $work/corpus)" ]; then
       if [ "$target" = fz_text ]; then
-        i=0; for f in /verif/corpus/real/*.js; do i=$((i+1)); [ $i -gt 40 ] && break; (printf '\000\000\000\000'; head -c 6000 "$f") > "$work/corpus/seed$i"; done
+        i=0; for f in $ROOT/corpus/real/*.js; do i=$((i+1)); [ $i -gt 40 ] && break; (printf '\000\000\000\000'; head -c 6000 "$f") > "$work/corpus/seed$i"; done
       else
         for i in $(seq 1 64); do head -c $((200 + i * 12)) /dev/urandom > "$work/corpus/seed$i"; done
       fi
     fi
-    found="${VERIF_FOUND_DIR:-/verif/replays/found}"
+    found="${VERIF_FOUND_DIR:-$ROOT/replays/found}"
     VERIF_FUZZ_PROPS="$props" VERIF_FOUND_DIR="$found" ./target-fuzz/x86_64-unknown-linux-gnu/release/$target -fork=${VERIF_THREADS:-16} -ignore_crashes=0 -max_total_time="$secs" -len_control=0 -max_len=1200 -rss_limit_mb=4096 -artifact_prefix="$work/artifacts/" "$work/corpus" > "$work/log.txt" 2>&1
     rc=$?
     grep -h "FUZZ-VIOLATION" "$work/log.txt" | sort -u | sed 's/^.*FUZZ-VIOLATION/VIOLATION/' | head -5
